@@ -19,6 +19,17 @@ Spec:   ValueMap.tla       declarative requirement: Claims(map, type, v) (exact
                            configurations (pinned tree's truncation index,
                            unguarded recursion, octal pattern) must FAIL.
         ValueMapTrace.tla  verdicts on observed vectors.
+        ValueMapHist.tla   requirement machine for histories: several value
+                           mappings created from ONE class object; every
+                           creation is judged against the class as declared,
+                           the class object is unchanged afterwards.
+        ValueMapHistImpl.tla code-shaped model of the class object + switch
+                           ShareValuesList (reconciliation in place on the
+                           qualifier's list) that must FAIL.
+        ValueMapHistTrace.tla verdicts on observed histories.
+        More regression switches (must FAIL): skip loop behind an open high
+        end stops one entry early (LegacySkip); unclaimed entry tested by
+        truthiness with the empty string as Values string (LegacyTruthy).
 Binding: arrays enumerated / simulated by TLC and seeded random arrays from the
         DSP0004 grammar are concretised for the 8 integer types (numbers,
         notations, property/method/parameter, scalar/array, mock / WBEMServer /
@@ -26,7 +37,11 @@ Binding: arrays enumerated / simulated by TLC and seeded random arrays from the
         the real ValueMapping; tovalues for every value of the 8-bit (and for
         a sample of arrays the 16-bit) types, boundaries for wider types,
         tobinary for every string, items(); TLC evaluates the requirement on
-        every <vector, observed table>.
+        every <vector, observed table>.  Also: every array in which an open
+        end stands next to a '..' run (enumerated by TLC), the empty string as
+        Values string / values_default (VectorsE), and histories simulated by
+        TLC replayed on one CIMClass object kept by the caller / handed out by
+        a caching connection (for_property / for_method / for_parameter).
 """
 import json
 import os
@@ -606,6 +621,9 @@ def run(ctx):
         "non-integer element types are not generated",
         "tobinary()/items() are only pinned down for Values strings occurring "
         "once; for duplicates any entry carrying the string is accepted",
+        "histories: 2 value-mapped elements per class, <= 3 creations "
+        "(simulated) / <= 2 resp. 4 (model-checked); the class object is "
+        "compared by the ValueMap / Values qualifier values of its elements",
         "ValueMapImplOps models BAD entries abstractly (one class); texts used: "
         "%d variants" % len(H.BAD_TEXTS),
     ]
